@@ -14,28 +14,28 @@ Editing ==
   /\ phase = "edit" /\ phase' = phase
   /\ \/ \E r \in Replica, runs \in RunChoices : EditRoom(Len(runs)) /\ NewBug(r, runs, Rk)
      \/ \E r \in Replica, b \in Bugs, runs \in RunChoices : EditRoom(Len(runs)) /\ Edit(r, b, runs, Rk)
-     \/ \E r \in Replica : Push(r)
-     \/ \E r \in Replica : Fetch(r)
-     \/ \E r \in Replica, b \in Bugs : EditRoom(1) /\ Merge(r, b, a1, Rk)
+     \/ \E r \in Replica, m \in Remote : Push(r, m)
+     \/ \E r \in Replica, m \in Remote : Fetch(r, m)
+     \/ \E r \in Replica, m \in Remote, b \in Bugs : EditRoom(1) /\ Merge(r, m, b, a1, Rk)
 Stop == phase = "edit" /\ phase' = "sync" /\ UNCHANGED vars
-SPush(r) == phase = "sync" /\ phase' = phase /\ Push(r)
-SFetch(r) == phase = "sync" /\ phase' = phase /\ Fetch(r)
+SPush(r, m) == phase = "sync" /\ phase' = phase /\ Push(r, m)
+SFetch(r, m) == phase = "sync" /\ phase' = phase /\ Fetch(r, m)
 (* a merge writes a commit only when the two heads have diverged *)
-Diverged(r, b) == /\ trk[r][b] # 0 /\ ref[r][b] # 0
-                  /\ trk[r][b] \notin Anc(ref[r][b]) /\ ref[r][b] \notin Anc(trk[r][b])
-SMerge(r, b) == phase = "sync" /\ phase' = phase /\ (Room(1) \/ ~Diverged(r, b)) /\ Merge(r, b, a1, Rk)
-LNext == Editing \/ Stop \/ (\E r \in Replica : SPush(r) \/ SFetch(r)) \/ (\E r \in Replica, b \in Bugs : SMerge(r, b))
+Diverged(r, m, b) == /\ trk[r][m][b] # 0 /\ ref[r][b] # 0
+                     /\ trk[r][m][b] \notin Anc(ref[r][b]) /\ ref[r][b] \notin Anc(trk[r][m][b])
+SMerge(r, m, b) == phase = "sync" /\ phase' = phase /\ (Room(1) \/ ~Diverged(r, m, b)) /\ Merge(r, m, b, a1, Rk)
+LNext == Editing \/ Stop \/ (\E r \in Replica, m \in Remote : SPush(r, m) \/ SFetch(r, m)) \/ (\E r \in Replica, m \in Remote, b \in Bugs : SMerge(r, m, b))
 Fair == /\ WF_lvars(Stop)
-        /\ \A r \in Replica : WF_lvars(SPush(r)) /\ WF_lvars(SFetch(r))
-        /\ \A r \in Replica, b \in Bugs : WF_lvars(SMerge(r, b))
+        /\ \A r \in Replica, m \in Remote : WF_lvars(SPush(r, m)) /\ WF_lvars(SFetch(r, m))
+        /\ \A r \in Replica, m \in Remote, b \in Bugs : WF_lvars(SMerge(r, m, b))
 LSpec == LInit /\ [][LNext]_lvars /\ Fair
 (* witness: without fairness of the merges the replicas may fetch and push for ever and never converge *)
-LSpecNoMerge == LInit /\ [][LNext]_lvars /\ WF_lvars(Stop) /\ \A r \in Replica : WF_lvars(SPush(r)) /\ WF_lvars(SFetch(r))
+LSpecNoMerge == LInit /\ [][LNext]_lvars /\ WF_lvars(Stop) /\ \A r \in Replica, m \in Remote : WF_lvars(SPush(r, m)) /\ WF_lvars(SFetch(r, m))
 
 Same == \A r1, r2 \in Replica, b \in Bugs :
           /\ (ref[r1][b] # 0) = (ref[r2][b] # 0)
           /\ ref[r1][b] # 0 => (OpsOf(ref[r1][b]) = OpsOf(ref[r2][b]) /\ Order(ref[r1][b]) = Order(ref[r2][b]))
 EventuallySame == <>[]Same
 (* the reserve suffices: the synchronisation never runs out of commits *)
-RoomForMerges == (phase = "sync" /\ \E r \in Replica, b \in Bugs : Diverged(r, b)) => Room(1)
+RoomForMerges == (phase = "sync" /\ \E r \in Replica, m \in Remote, b \in Bugs : Diverged(r, m, b)) => Room(1)
 =============================================================================
